@@ -186,23 +186,34 @@ def run(tier, seed, drv):
                 res.violate(V("bus-raised", err, site="InternalStateServer"), case)
             continue
         if ok:
-            real_pt = [per_topic(r) for r in recv]
-            model_pt = [per_topic(r) for r in rep["recv"]]
+            # when handlers of DIFFERENT consumers publish re-entrantly, the order of their
+            # publications depends on the iteration order of the real bus's subscriber *set*;
+            # the model iterates in subscription order.  Then compare as multisets (the order
+            # clause of the property is checked by the monitor against the impl's own log).
+            ambiguous = len({k for k, v, pubs in handlers}) >= 2
+            canon = (lambda l: sorted(l)) if ambiguous else (lambda l: l)
+            real_pt = [{T: canon(l) for T, l in per_topic(r).items()} for r in recv]
+            model_pt = [{T: canon(l) for T, l in per_topic(r).items()} for r in rep["recv"]]
             if real_pt != model_pt:
                 res.diverge(f"bus deliveries differ: impl {real_pt} model {model_pt}", case)
-            logs = {T: l for T, l in rep["logs"]}
-            if {T: l for T, l in produced.items() if l} != {T: l for T, l in logs.items() if l}:
+            logs = {T: canon(l) for T, l in rep["logs"] if l}
+            if {T: canon(l) for T, l in produced.items() if l} != logs:
                 res.diverge(f"bus logs differ: impl {produced} model {logs}", case)
+            res.count("order-ambiguous" if ambiguous else "order-determined")
             for v in monitor(ops, recv, produced, n_cons):
                 res.violate(v, case)
     loop.close()
     # topic naming: behavioural spot check of injectivity on generated names (the theorem is over Gen/Constants)
     from tickit.utils.topic_naming import input_topic, output_topic
-    names = ["a", "b", "a-in", "a-out", "x-out-in", "tickit-a", "in", "out", "-", "a-", "é", " "] + [f"n{i}" for i in range(20)]
+    names = ["a", "b", "a-in", "a-out", "x-out-in", "tickit-a", "in", "out", "-", "a-", "é", " ", "a ", " a", "a\n", "\ta", "A", "a b", "  "] + [f"n{i}" for i in range(20)]
     seen = {}
     for n in names:
         for kind, f in (("in", input_topic), ("out", output_topic)):
-            t = f(n)
+            try:
+                t = f(n)
+            except Exception as e:
+                res.violate(V("topic-rejected", f"{kind}put topic of the non-empty name {n!r} raised {type(e).__name__}", site="topic_naming"), {"names": [n]})
+                continue
             res.case(("topic", n, kind))
             if t in seen and seen[t] != (n, kind):
                 res.violate(V("topic-collision", f"{seen[t]} and {(n, kind)} share topic {t!r}", site="topic_naming"), {"names": [seen[t][0], n]})
